@@ -27,11 +27,11 @@ import (
 func Wakers(pkgs ...string) func(p *load.Program, run *report.Run) {
 	return func(p *load.Program, run *report.Run) {
 		const rule = "wait-has-a-started-waker"
-		run.Rule(rule, "for every sync.Cond.Wait site and every exported function of the package from which it is reachable, that function's own call tree (calls, go statements, defers, closures; module code) contains a Broadcast or Signal on the same condition field — or the wait is guarded by a field only such functions store")
+		run.Rule(rule, "for every wait site (sync.Cond.Wait, or a receive from a channel kept in a struct field) and every exported function of the package from which it is reachable, that function's own call tree (calls, go statements, defers, closures; module code) contains a wake-up of the same field (Broadcast/Signal, or a send on / close of the channel) — or the wait is guarded by a field only such functions store")
 		for _, rel := range pkgs {
 			wakersOf(p, run, rule, rel)
 		}
-		run.Floor("cond-wait-sites", 2)
+		run.Floor("cond-wait-sites", 1)
 	}
 }
 
@@ -77,38 +77,21 @@ func wakersOf(p *load.Program, run *report.Run, rule, rel string) {
 	sort.Slice(fns, func(i, j int) bool { return fns[i].Pos() < fns[j].Pos() })
 	type site struct {
 		fn   *ssa.Function
-		call ssa.CallInstruction
+		call ssa.Instruction
 		key  string
 	}
 	var waits []site
 	signals := map[string]map[*ssa.Function]bool{}
-	condCall := func(c ssa.CallInstruction) (string, string) {
-		callee := c.Common().StaticCallee()
-		if callee == nil || callee.Pkg == nil || callee.Pkg.Pkg.Path() != "sync" || callee.Signature.Recv() == nil || !strings.HasSuffix(callee.Signature.Recv().Type().String(), "sync.Cond") {
-			return "", ""
-		}
-		if len(c.Common().Args) == 0 {
-			return "", ""
-		}
-		return callee.Name(), condKey(c.Common().Args[0])
-	}
 	for _, fn := range fns {
-		for _, b := range fn.Blocks {
-			for _, ins := range b.Instrs {
-				c, ok := ins.(ssa.CallInstruction)
-				if !ok {
-					continue
+		for _, op := range syncOpsOf(fn) {
+			switch op.kind {
+			case "wait":
+				waits = append(waits, site{fn, op.ins, op.key})
+			case "wake":
+				if signals[op.key] == nil {
+					signals[op.key] = map[*ssa.Function]bool{}
 				}
-				name, key := condCall(c)
-				switch name {
-				case "Wait":
-					waits = append(waits, site{fn, c, key})
-				case "Broadcast", "Signal":
-					if signals[key] == nil {
-						signals[key] = map[*ssa.Function]bool{}
-					}
-					signals[key][fn] = true
-				}
+				signals[op.key][fn] = true
 			}
 		}
 	}
